@@ -55,6 +55,19 @@ let flim (k : n) (q0 : Obj.t) : Obj.t =
   | Some v -> Obj.repr v
   | None -> incr lim_missing; Obj.repr nan
 
+(* usize as f64 (exact below 2^53; round-to-nearest above, as the cast does) *)
+let float_of_n (x : n) : Obj.t =
+  let rec go (p : positive) : float = match p with XH -> 1.0 | XO r -> 2.0 *. go r | XI r -> 2.0 *. go r +. 1.0 in
+  Obj.repr (match x with N0 -> 0.0 | Npos p -> go p)
+let fln (x : Obj.t) : Obj.t = Obj.repr (log (fl x))
+(* f64 as usize: truncation toward zero, NaN and negatives give 0, saturating at 2^64-1 *)
+let ftrunc (x : Obj.t) : n =
+  let f = fl x in
+  if f <> f || f <= 0.0 then N0
+  else if f >= 18446744073709551616.0 then n_of_int64 (-1L)
+  else if f >= 9223372036854775808.0 then n_of_int64 (Int64.add (Int64.of_float (f -. 9223372036854775808.0)) Int64.min_int)
+  else n_of_int64 (Int64.of_float f)
+
 let take_n toks k = (* returns (first k tokens as N list, rest) *)
   let rec go k acc l = if k = 0 then (List.rev acc, l) else match l with x :: r -> go (k - 1) (n_of_string x :: acc) r | [] -> failwith "short line" in
   go k [] toks
@@ -99,6 +112,8 @@ let () =
              | "lossy" -> lossy_case o
              | "heap" -> heap_case (h, o)
              | "td" -> tdx_case farith float_of_bits_n bits_n_of_float flim o
+             | "hllc" -> hllc_case farith float_of_n fln ftrunc o
+             | "hser" -> hser_case o
              | s -> failwith ("unknown structure " ^ s)) in
          (match r with
           | None when !lim_missing > 0 -> Printf.printf "F 0 S 888 %d\n" !lim_missing
